@@ -9,8 +9,9 @@
      recode.py  generate_dispatch      -> [gen_entry]: a mini-AST of the generated function (parameter list
                                           with MISSING defaults and the / and * markers where the code puts
                                           them, KWARGS/TARGS statements, one early exit per optional positional,
-                                          the final call), faithfully including the slices lookup[:req+i] and
-                                          posargs[:req+i+1] that drop the keywords (known finding KF-02)
+                                          the final call); the early exits slice the positional parts
+                                          lookup[:req+i] / posargs[:req+i+1] and keep the keyword parts (KF-02 repaired);
+                                          a positional supplied by keyword beyond the omitted one is still dropped (KF-31)
      CPython    def-statement rules    -> [resolve_params] (markers -> kinds, SyntaxError cases)
      CPython    argument binding       -> [bind]
      CPython    execution of the body  -> [run_stmts] (interpreter of the mini-AST)
@@ -275,9 +276,12 @@ Definition gen_entry (a : analysis) : entry :=
   let inits := if has_ko then [SInitK; SInitT] else [] in
   let kwopts := map (fun n => SKwOpt (IUser n) n (IUser n) n (lookup_for a (CName n)) (IUser n)) ko in
   let req := length (spr ++ pr) in
-  (* lookup[: req + i], posargs[: req + i + 1] (slot 0 is self or "") *)
-  let exits := mapi_from 0 (fun i x => SExit x (mkCall (firstn (req + i) lookup)
-                                                       (selfa ++ firstn (req + i) posargs))) (spo ++ po) in
+  let np := length (s1 ++ s2) in       (* npos: number of positional parameters, strict + named *)
+  (* lookup[: req + i] + lookup[npos :], posargs[: req + i + 1] + posargs[npos + 1 :] (slot 0 is self or ""):
+     the positionals before the omitted one, and all the keyword parts (repair of KF-02) *)
+  let exits := mapi_from 0 (fun i x => SExit x (mkCall (firstn (req + i) lookup ++ skipn np lookup)
+                                                       (selfa ++ firstn (req + i) posargs ++ skipn np posargs)))
+                         (spo ++ po) in
   mkEntry params (inits ++ kwopts ++ exits ++ [SCall (mkCall lookup (selfa ++ posargs))]).
 
 (* ---------- CPython: the def statement (markers -> parameter kinds; None = SyntaxError) ---------- *)
